@@ -1040,9 +1040,57 @@ pub(crate) fn advance_replay_state<P: ProvenanceStore>(
 
     let root = *replayed.root();
     let mut last_entry = None;
+    // Chain link: the commit id of the entry immediately before `tick`.
+    let mut previous_commit = match start_tick.checked_sub(1) {
+        Some(previous_tick) => Some(
+            provenance
+                .entry(worldline_id, previous_tick)?
+                .expected
+                .commit_hash,
+        ),
+        None => None,
+    };
     for raw_tick in start_tick.as_u64()..target_tick.as_u64() {
         let tick = WorldlineTick::from_raw(raw_tick);
         let entry = provenance.entry(worldline_id, tick)?;
+        // A store must serve the entry *of this coordinate*: same worldline,
+        // same tick, and parented on the entry replayed just before it.
+        if entry.worldline_id != worldline_id {
+            return Err(ReplayError::History(
+                HistoryError::EntryWorldlineMismatch {
+                    expected: worldline_id,
+                    got: entry.worldline_id,
+                },
+            ));
+        }
+        if entry.worldline_tick != tick {
+            return Err(ReplayError::History(HistoryError::TickGap {
+                expected: tick,
+                got: entry.worldline_tick,
+            }));
+        }
+        if let (Some(previous_commit), Some(previous_tick)) = (previous_commit, tick.checked_sub(1))
+        {
+            let linked = entry.parents.iter().any(|parent| {
+                parent.worldline_id == worldline_id
+                    && parent.worldline_tick == previous_tick
+                    && parent.commit_hash == previous_commit
+            });
+            if !linked {
+                return Err(ReplayError::History(
+                    HistoryError::ParentCommitHashMismatch {
+                        tick,
+                        parent: entry.parents.first().copied().unwrap_or(ProvenanceRef {
+                            worldline_id,
+                            worldline_tick: previous_tick,
+                            commit_hash: [0u8; 32],
+                        }),
+                        stored_commit_hash: previous_commit,
+                    },
+                ));
+            }
+        }
+        previous_commit = Some(entry.expected.commit_hash);
         let patch = entry
             .patch
             .as_ref()
